@@ -47,7 +47,12 @@ def event_from_json(event_json) -> Event:
             and type(event_json["created_at"]) is int
             and type(event_json["kind"]) is int
             and isinstance(event_json["tags"], list)
-            and all(isinstance(tag, (list, tuple)) for tag in event_json["tags"])
+            and all(
+                isinstance(tag, (list, tuple))
+                and len(tag) > 0
+                and isinstance(tag[0], str)
+                for tag in event_json["tags"]
+            )
         )
     except Exception:
         well_formed = False
